@@ -15,6 +15,12 @@ theorem or_shl16 (a c : Nat) (ha : a < 65536) : a ||| (c <<< 16) = a + c * 65536
   rw [Nat.or_comm, ← Nat.shiftLeft_add_eq_or_of_lt (show a < 2 ^ 16 from ha) c, Nat.shiftLeft_eq]
   omega
 
+/-! the generated continuation-byte tests of `isValid` say what the lemmas below reason about -/
+theorem validBad2_eq (b1 : Nat) : validBad2 b1 = decide (b1 &&& 0xc0 ≠ 0x80) := rfl
+theorem validBad3_eq (b1 b2 : Nat) : validBad3 b1 b2 = decide ((b1 ||| (b2 <<< 8)) &&& 0xc0c0 ≠ 0x8080) := rfl
+theorem validBad4_eq (b1 b2 b3 : Nat) :
+    validBad4 b1 b2 b3 = decide ((b1 ||| (b2 <<< 8) ||| (b3 <<< 16)) &&& 0xc0c0c0 ≠ 0x808080) := rfl
+
 theorem cont_ok : ∀ y, y < 64 → (0x80 + y) &&& 0xc0 = 0x80 := by decide
 
 /-- `x & 0xc0c0` byte-wise -/
@@ -71,7 +77,7 @@ theorem valid_step2 (mem rest : List Nat) (end_ p len x y : Nat)
   have hlt : p < end_ := by omega
   have hlen : ¬ len < 2 := by omega
   rw [isValidLoop]
-  simp [hlt, r0, r1, len2 x hx, hlen, cont_ok y hy]
+  simp [hlt, r0, r1, len2 x hx, hlen, cont_ok y hy, validBad2_eq]
 
 theorem valid_step3 (mem rest : List Nat) (end_ p len x y z : Nat)
     (hd : mem.drop p = (0xE0 + x) :: (0x80 + y) :: (0x80 + z) :: rest) (hx : x < 16) (hy : y < 64) (hz : z < 64)
@@ -84,7 +90,7 @@ theorem valid_step3 (mem rest : List Nat) (end_ p len x y z : Nat)
   have hlen : ¬ len < 3 := by omega
   have m := mask2 (0x80 + y) (0x80 + z) (by omega) (by omega) (cont_ok y hy) (cont_ok z hz)
   rw [isValidLoop]
-  simp [hlt, r0, r1, r2, len3 x hx, hlen, m]
+  simp [hlt, r0, r1, r2, len3 x hx, hlen, m, validBad3_eq]
 
 theorem valid_step4 (mem rest : List Nat) (end_ p len x y z w : Nat)
     (hd : mem.drop p = (0xF0 + x) :: (0x80 + y) :: (0x80 + z) :: (0x80 + w) :: rest)
@@ -100,7 +106,7 @@ theorem valid_step4 (mem rest : List Nat) (end_ p len x y z w : Nat)
   have m := mask3 (0x80 + y) (0x80 + z) (0x80 + w) (by omega) (by omega) (by omega)
     (cont_ok y hy) (cont_ok z hz) (cont_ok w hw)
   rw [isValidLoop]
-  simp [hlt, r0, r1, r2, r3, len4 x hx, hlen, m]
+  simp [hlt, r0, r1, r2, r3, len4 x hx, hlen, m, validBad4_eq]
 
 /-- one encoded code point is consumed by one iteration of the validator -/
 theorem valid_step (cp : Nat) (hcp : cp < 0x110000) (mem rest : List Nat) (end_ p len : Nat)
@@ -244,14 +250,14 @@ theorem loop_step (mem : List Nat) (p len : Nat) (hp : p < mem.length) (hl : p +
     · by_cases h3 : mem[p] < 0xE0
       · by_cases hn : p + 1 < mem.length
         · have : ¬ len < 2 := by omega
-          simp [h1, h2, h3, hn, this, rdR_ok hn (Nat.le_refl _)]
+          simp [h1, h2, h3, hn, this, rdR_ok hn (Nat.le_refl _), validBad2_eq]
         · have : len < 2 := by omega
           simp [h1, h2, h3, hn, this]
       · by_cases h4 : mem[p] < 0xF0
         · by_cases hn : p + 2 < mem.length
           · have : ¬ len < 3 := by omega
             have hn1 : p + 1 < mem.length := by omega
-            simp [h1, h2, h3, h4, hn, this, rdR_ok hn (Nat.le_refl _), rdR_ok hn1 (Nat.le_refl _)]
+            simp [h1, h2, h3, h4, hn, this, rdR_ok hn (Nat.le_refl _), rdR_ok hn1 (Nat.le_refl _), validBad3_eq]
           · have : len < 3 := by omega
             simp [h1, h2, h3, h4, hn, this]
         · by_cases h5 : mem[p] < 0xF8
@@ -260,7 +266,7 @@ theorem loop_step (mem : List Nat) (p len : Nat) (hp : p < mem.length) (hl : p +
               have hn1 : p + 1 < mem.length := by omega
               have hn2 : p + 2 < mem.length := by omega
               simp [h1, h2, h3, h4, h5, hn, this, rdR_ok hn (Nat.le_refl _), rdR_ok hn1 (Nat.le_refl _),
-                rdR_ok hn2 (Nat.le_refl _)]
+                rdR_ok hn2 (Nat.le_refl _), validBad4_eq]
             · have : len < 4 := by omega
               simp [h1, h2, h3, h4, h5, hn, this]
           · simp [h1, h2, h3, h4, h5]
